@@ -60,6 +60,12 @@ structure MCmd where
   subRequired : Bool := false
   args : List MArg := []
   subs : List MSub := []
+  /-- `Man::title` / `section` / `date` / `source` / `manual` builder overrides -/
+  ovTitle : Option Bytes := none
+  ovSection : Option Bytes := none
+  ovDate : Option Bytes := none
+  ovSource : Option Bytes := none
+  ovManual : Option Bytes := none
 deriving Repr, DecidableEq
 
 /-! ### string helpers -/
@@ -247,14 +253,14 @@ def authorsSection (c : MCmd) : List Line :=
 
 /-- `Man::new(cmd).render()`; `none` = panic -/
 def manLines (c : MCmd) : Option (List Line) :=
-  let sectionNo := [49]
-  let title := dn c
-  let source := c.name ++ [32] ++ c.version.getD []
+  let sectionNo := c.ovSection.getD [49]
+  let title := c.ovTitle.getD (dn c)
+  let source := c.ovSource.getD (c.name ++ [32] ++ c.version.getD [])
   match versionSection c with
   | none => none
   | some ver =>
     some (
-      [.control ([84, 72]) [controlArg title, sectionNo, [], controlArg source, []],
+      [.control ([84, 72]) [controlArg title, controlArg sectionNo, controlArg (c.ovDate.getD []), controlArg source, controlArg (c.ovManual.getD [])],
        .control ([83, 72]) [[78, 65, 77, 69]]] ++ aboutLines c ++
       [.control ([83, 72]) [[83, 89, 78, 79, 80, 83, 73, 83]], synopsisLine c,
        .control ([83, 72]) [[68, 69, 83, 67, 82, 73, 80, 84, 73, 79, 78]]] ++ descriptionLines c ++
